@@ -269,6 +269,19 @@ def pop_op(rng, st, op):
         m.set_dim_names([stem % i for i in rng.permutation(m.n_dim())])
         st.dim_reset_pending = False
         return 'set_dim_names(custom)'
+    if op == 'set_covariate_names':
+        n_c = m.n_covariates()
+        if n_c == 0:
+            return None
+        if rng.random() < 0.3:
+            m.set_covariate_names(None)
+            return 'set_covariate_names(reset)'
+        want = ['covariate %d' % i for i in rng.permutation(n_c)]
+        m.set_covariate_names(want)
+        got = list(m.get_covariate_names())
+        if got != want:
+            raise CovariateNames('set %r, published %r' % (want, got))
+        return 'set_covariate_names(custom)'
     if op == 'set_parameter_names':
         if rng.random() < 0.3:
             m.set_parameter_names(None)
@@ -314,7 +327,11 @@ def pop_op(rng, st, op):
 
 
 POP_OPS = ['set_n_ids', 'set_dim_names', 'set_parameter_names', 'fix',
-           'release', 'set_population_parameters']
+           'release', 'set_population_parameters', 'set_covariate_names']
+
+
+class CovariateNames(Exception):
+    pass
 
 
 def _finish_hierarchical(ctx, rng, st, feats):
